@@ -1829,3 +1829,111 @@ var ruleNumRange = &Rule{
 		return obs
 	},
 }
+
+// ---------------------------------------------------------------------------------------------
+// PARSE/bad-expr-reported: a placeholder expression is never made silently
+
+var ruleParseBadExpr = &Rule{
+	Name:    "PARSE/bad-expr-reported",
+	NeedSSA: true,
+	Text:    "every place in the parser that creates an *ast.BadExpr — the placeholder for something that is not a valid expression / assignment target — reports a syntax error: either the creating function calls insertParserErr on every path through the creation (before or after it), or, following the placeholder to the callers (closed call sites, closures to their enclosing function, three levels), some function on the way tests for *ast.BadExpr and that function or a later one on the way calls insertParserErr. Otherwise an invalid file is reported clean (`(a) = 1`)",
+	Run: func(c *Ctx) []Ob {
+		var obs []Ob
+		parserP := modPath + "/langserver/check/compiler/parser"
+		isErr := func(i ssa.Instruction) bool {
+			call, ok := i.(*ssa.Call)
+			if !ok {
+				return false
+			}
+			g := call.Call.StaticCallee()
+			return g != nil && g.Name() == "insertParserErr"
+		}
+		hasErr := func(f *ssa.Function) bool {
+			for _, b := range f.Blocks {
+				for _, ins := range b.Instrs {
+					if isErr(ins) {
+						return true
+					}
+				}
+			}
+			return false
+		}
+		testsBad := func(f *ssa.Function) bool {
+			for _, b := range f.Blocks {
+				for _, ins := range b.Instrs {
+					if ta, ok := ins.(*ssa.TypeAssert); ok {
+						if _, nm := namedPkgName(ta.AssertedType); nm == "BadExpr" {
+							return true
+						}
+					}
+				}
+			}
+			return false
+		}
+		n := 0
+		for _, f := range c.ModFns() {
+			if f.Pkg == nil || f.Pkg.Pkg.Path() != parserP {
+				continue
+			}
+			cnt := 0
+			for _, b := range f.Blocks {
+				for _, ins := range b.Instrs {
+					al, ok := ins.(*ssa.Alloc)
+					if !ok {
+						continue
+					}
+					if _, nm := namedPkgName(al.Type()); nm != "BadExpr" {
+						continue
+					}
+					n++
+					cnt++
+					key := fmt.Sprintf("PARSE/bad-expr:%s#%d", f.Name(), cnt)
+					isAl := func(i ssa.Instruction) bool { return i == ssa.Instruction(al) }
+					local := len(mustPrecede(f, isErr, isAl)) == 0 || len(mustFollow(f, isAl, isErr)) == 0
+					ok2 := local && hasErr(f)
+					if !ok2 {
+						// up the callers
+						level := []*ssa.Function{f}
+						tested := false
+						for d := 0; d < 3 && !ok2; d++ {
+							var next []*ssa.Function
+							for _, g := range level {
+								if d > 0 && testsBad(g) { // the creating function's own arms do not count
+									tested = true
+								}
+								if tested && hasErr(g) {
+									ok2 = true
+								}
+								if g.Parent() != nil {
+									next = append(next, g.Parent())
+								}
+								if sites, closed := closedCallSites(c, g); closed {
+									for _, cs := range sites {
+										next = append(next, cs.Parent())
+									}
+								}
+							}
+							level = next
+						}
+						for _, g := range level {
+							if testsBad(g) {
+								tested = true
+							}
+							if tested && hasErr(g) {
+								ok2 = true
+							}
+						}
+					}
+					if ok2 {
+						obs = append(obs, Ob{Key: key, Site: c.Pos(al.Pos()), Verdict: OK})
+					} else {
+						obs = append(obs, Ob{Key: key, Site: c.Pos(al.Pos()), Verdict: VIOLATION,
+							Note: f.Name() + " creates a placeholder expression, and neither it nor a caller that recognises the placeholder reports a syntax error: the invalid construct is accepted silently"})
+					}
+				}
+			}
+		}
+		obs = append(obs, floor("PARSE/bad-expr-reported", "placeholder expressions created by the parser", n, 2))
+		return obs
+	},
+}
